@@ -25,7 +25,7 @@ SPEC = {
     "assumptions": ["vlib/tealgrammar.py follows go-algorand's tokenizer and literal decoders (both quoting rules tried)",
                     "Python's codecs and hashlib"],
     "min_evaluations": {"quick": 20000, "thorough": 200000},
-    "must_reach": ["str_ok", "bytes_ok", "base16_ok", "base32_ok", "base64_ok", "addr_ok", "method_ok", "int_ok",
+    "must_reach": ["str_ok", "bytes_ok", "bytearray_reused_after_construction", "base16_ok", "base32_ok", "base64_ok", "addr_ok", "method_ok", "int_ok",
                    "rejected_malformed"],
 }
 
@@ -93,7 +93,7 @@ def gen_case(rng):
         return {"cls": "str", "lit": s}
     if k < .52:
         b = bytes(rng.choice([0, 0x22, 0x5c, 0x0a, 0x0d, 0x7f, 0x80, 0xff, rng.randrange(256)]) for _ in range(rng.randrange(0, 65)))
-        return {"cls": "bytes", "lit": b.hex(), "as": rng.choice(["bytes", "bytearray"])}
+        return {"cls": "bytes", "lit": b.hex(), "as": rng.choice(["bytes", "bytearray", "bytearray_reused"])}
     if k < .64:
         b = bytes(rng.randrange(256) for _ in range(rng.randrange(0, 12)))
         s = b.hex()
@@ -210,7 +210,15 @@ def check_case(pt, acc, c):
         elif cls == "bytes":
             raw = bytes.fromhex(lit)
             expected = raw
-            expr = pt.Bytes(raw if c["as"] == "bytes" else bytearray(raw))
+            if c["as"] == "bytearray_reused":
+                # the caller's buffer is reused for something else after the literal was written (a scratch buffer in a loop):
+                # the literal is what the buffer held when Bytes() was called
+                buf = bytearray(raw)
+                expr = pt.Bytes(buf)
+                buf[:] = bytes((x ^ 0x5A) for x in raw) + b"later"
+                acc.counters["bytearray_reused_after_construction"] += 1
+            else:
+                expr = pt.Bytes(raw if c["as"] == "bytes" else bytearray(raw))
             nontriv = any(x >= 0x80 or x < 0x20 for x in raw)
         elif cls == "base16":
             expected = _b16_oracle(lit)
